@@ -1,23 +1,28 @@
 import LenaModel.DriverUtil
 import LenaModel.Model.C15
+import LenaModel.Model.C15Spec
 /-! Model driver for C15.  Every request carries `"names"`: the key alphabet of the case.
-A context is a JSON object (nested; scalars null / bool / int / string); a value is
-`{"d": data, "c": context | null}` with data null / bool / int / string / {"tuple":true}.
+A context is a JSON object (nested; scalars null / bool / int / string; `["obj", s]` = an object json cannot
+encode whose `str()` is `s`); a value is `{"d": data, "c": context | null}` with data null / bool / int /
+string / {"tuple":true}.
 
 Specifications:
   {"t":"str","s":"a.b"} {"t":"cls","c":"int"} {"t":"fn","f":NAME} {"t":"list","l":[..]} {"t":"tuple","l":[..]}
   {"t":"not","s":SPEC,"roe":b} {"t":"sel","s":SPEC,"roe":b} {"t":"and","l":[..],"roe":b} {"t":"or","l":[..],"roe":b}
-  {"t":"selctx","key":"a.b" | ["a","b"],"pred":NAME,"roe":b} {"t":"bad"}
+  {"t":"selctx","key":KEY,"pred":NAME,"roe":b} {"t":"bad"}
+  KEY = "a.b" | ["a","b"] | [.., 5, ..] (an item that is no string) |
+        {"dict":["a","b"],"tail":"stop"|"multi"|{"key":"c"}|{"key":null}}
 
-Requests:
+Requests (every reply also carries the values of the specification-side definitions of `Model/C15Spec.lean`
+that the theorems relate the model to — see the field lists in `handle`):
   {"op":"select","names":[..],"spec":SPEC,"roe":b,"top":"selector"|"filter","values":[..]}
-      -> {"init":"LenaTypeError"} | {"r":[true|false|{"e":name},..],"kept":[values],"stop":null|name}
-         (`r`: selector(value) per value; `kept`/`stop`: Filter.run on the whole flow)
-  {"op":"sem", ... same ...} -> {"r":[..]}          the reference semantics `sem` (Props) is not in the model;
-                                                     the driver only runs the transcription
-  {"op":"groupby","names":[..],"group_by":S,"merge":S,"contexts":[ctx|null,..]}   S = "str" | ["str",..]
-      -> {"init":"LenaValueError"} | {"groups":[[indices],..],"keys":[ctx,..]}
-  {"op":"split","s":"a.b"} -> {"r":["a","b"]} -/
+  {"op":"filterseq","names":[..],"a":SPEC,"b":SPEC,"values":[..]}      Sequence(Filter(a), Filter(b))
+  {"op":"runif","names":[..],"spec":SPEC,"seq":"ident"|"dup"|"drop"|"tag","values":[..]}
+  {"op":"groupby","names":[..],"group_by":S,"merge":S,"contexts":[ctx|null,..],"via":"fill"|"update","end":"reset"|"clear"}
+      S = "str" | ["str",..] | {"notiter":true}
+  {"op":"oldgroupby","group_by":G,"values":[..]}   G = NAME | [NAME,..] | {"bad":true}
+  {"op":"contains","names":[..],"ctx":ctx,"s":"a.b"}
+  {"op":"splitkey","s":"a.b"}   {"op":"startswith","a":[..],"b":[..]}   {"op":"split","s":"a.b"} -/
 open Lean Lena.Drv Lena.C15
 
 def fnTable : String → Option (Item → Res)
@@ -67,7 +72,9 @@ partial def valOf (names : List String) (j : Json) : Option Val :=
   | .str s => some (.leaf (.str s))
   | .num _ => (int? j).map (fun i => .leaf (.int i))
   | .obj _ => (slotsOf names j).map .dict
-  | _ => none
+  | .arr a => match a.toList with
+    | [.str "obj", .str s] => some (.leaf (.obj s))
+    | _ => none
 where
   slotsOf (names : List String) (j : Json) : Option Slots :=
     names.mapM (fun n =>
@@ -85,6 +92,7 @@ partial def valToJson (names : List String) : Val → Json
   | .leaf (.bool b) => Json.bool b
   | .leaf (.int i) => ofInt i
   | .leaf (.str s) => Json.str s
+  | .leaf (.obj s) => Json.arr #[Json.str "obj", Json.str s]
   | .dict l => Json.mkObj ((names.zip l).filterMap (fun (n, o) => o.map (fun v => (n, valToJson names v))))
 
 def dataOf (j : Json) : Option Data :=
@@ -121,7 +129,18 @@ def strList? (j : Json) : Option (List String) := do
 def keyArg? (j : Json) : Option KeyArg :=
   match j with
   | .str s => some (.str s)
-  | _ => (strList? j).map .list
+  | .arr a => some (match a.toList.mapM str? with | some ks => .list ks | none => .badList)
+  | .obj _ => do
+    let ks ← strList? (getD j "dict")
+    let t := getD j "tail"
+    match t with
+    | .str "stop" => pure (.dict ks .stop)
+    | .str "multi" => pure (.dict ks .multi)
+    | .obj _ =>
+      let k := getD t "key"
+      if k.isNull then pure (.dict ks (.key none)) else (str? k).map (fun s => .dict ks (.key (some s)))
+    | _ => none
+  | _ => none
 
 partial def specOf (j : Json) : Option Spec := do
   let t ← str? (getD j "t")
@@ -149,18 +168,106 @@ def sot? (j : Json) : Option StrOrTuple :=
   | .str s => some (.str s)
   | _ => (strList? j).map .tuple
 
+def gbArg? (j : Json) : Option GbArg :=
+  match j with
+  | .obj _ => some .notIterable
+  | _ => (sot? j).map .arg
+
 /-- positions of the values of each group (values are tagged with their index as data) -/
 def idxOfItem (v : Item) : Json :=
   match v.data with
   | .int i => ofInt i
   | _ => Json.null
 
+def seqTable (width : Nat) : String → Option (Item → List Item)
+  | "ident" => some (fun v => [v])
+  | "dup" => some (fun v => [v, v])
+  | "drop" => some (fun _ => [])
+  | "tag" => some (fun v => [{ data := .str "t", ctx := some (v.context width) }])
+  | _ => none
+
+/-- callables for the deprecated `_GroupBy` (the value's data is an int, a string or None) -/
+def keyFnTable : String → Option (Item → KeyOut)
+  | "parity" => some (fun v => match v.data with | .int i => .ok (.int (i % 2)) | _ => .raise "Other:TypeError")
+  | "name" => some (fun v => match v.data with | .str s => .ok (.str s) | _ => .keyError)
+  | "zero" => some (fun _ => .ok (.int 0))
+  | "const" => some (fun _ => .ok (.str "k"))
+  | "keyerr" => some (fun _ => .keyError)
+  | "sign" => some (fun v => match v.data with
+      | .int i => .ok (.int (if i > 0 then 1 else if i < 0 then -1 else 0))
+      | _ => .ok .none)
+  | _ => none
+
+def leafJson : Leaf → Json
+  | .none => Json.null
+  | .bool b => Json.bool b
+  | .int i => ofInt i
+  | .str s => Json.str s
+  | .obj s => Json.arr #[Json.str "obj", Json.str s]
+
+def seenJson : Seen → Json
+  | .absent => Json.null
+  | .leaf a => Json.mkObj [("leaf", leafJson a)]
+  | .dict => Json.str "dict"
+
+def pathJson (names : List String) (p : Path) : Json := ofList (fun k => Json.str (names.getD k "?")) p
+
+def runOutJson (names : List String) (r : List Item × Option String) : List (String × Json) :=
+  [("kept", ofList (itemJson names) r.1), ("stop", ofOpt Json.str r.2)]
+
+/-- the flags and values of the specification side for a `select`-like request -/
+def semFields (names : List String) (spec : Spec) (roe : Bool) (top : String) (vals : List Item) : List (String × Json) :=
+  let semTop : Item → Res := fun v => if top == "filter" then sem names true spec v else absorb roe (sem names roe spec v)
+  let fold : Option (Item → Res) := match spec with
+    | .list l => some (fun v => absorb roe (orRes (l.map (fun s => sem names roe s v))))
+    | .tuple l => some (fun v => absorb roe (andRes (l.map (fun s => sem names roe s v))))
+    | _ => none
+  [("sem", ofList (fun v => resJson (semTop v)) vals),
+   ("semFold", ofOpt (fun f => ofList (fun v => resJson (absorb roe (f v))) vals) fold),
+   ("semB", ofList (fun v => Json.bool (semB names spec v)) vals),
+   ("hasBad", Json.bool spec.hasBad), ("allRoeF", Json.bool (spec.allRoe false)), ("keysOk", Json.bool spec.keysOk),
+   ("totalOn", ofList (fun v => Json.bool (spec.totalOn names v)) vals)]
+
 def handle (j : Json) : Json :=
   match strList? (getD j "names") with
   | none =>
-    match str? (getD j "op"), str? (getD j "s") with
-    | some "split", some s => Json.mkObj [("r", ofList Json.str (splitDots s))]
-    | _, _ => err "names missing"
+    match str? (getD j "op") with
+    | some "split" => match str? (getD j "s") with
+      | some s => Json.mkObj [("r", ofList Json.str (splitDots s))]
+      | none => err "bad split args"
+    | some "splitkey" => match str? (getD j "s") with
+      | some s => Json.mkObj [("r", ofOpt (ofList Json.str) (splitKey s))]
+      | none => err "bad splitkey args"
+    | some "startswith" => match strList? (getD j "a"), strList? (getD j "b") with
+      | some a, some b => Json.mkObj [("r", Json.bool (startsWith a b)), ("spec", Json.bool (a.isPrefixOf b))]
+      | _, _ => err "bad startswith args"
+    | some "oldgroupby" =>
+      let gj := getD j "group_by"
+      let g : Option (Option OldGb) := match gj with
+        | .str n => (keyFnTable n).map (fun f => some (.single f))
+        | .arr a => (a.toList.mapM (fun x => (str? x).bind keyFnTable)).map (fun fs => some (.tuple fs))
+        | .obj _ => some none
+        | _ => none
+      match g, (arr? (getD j "values")).bind (·.toList.mapM (itemOf [])) with
+      | some none, _ => Json.mkObj [("init", "LenaTypeError")]
+      | some (some g), some vals =>
+        -- `fill` value by value; an exception leaves the groups unchanged
+        let (gs, errs) := vals.zipIdx.foldl (fun (acc : OldGroups × List Json) (vi : Item × Nat) =>
+          match oldFill g acc.1 vi.1 with
+          | .ok gs' => (gs', acc.2)
+          | .error e => (acc.1, acc.2 ++ [Json.mkObj [("at", ofNat vi.2), ("e", Json.str e)]])) ([], [])
+        -- specification side: the reference partition of the values whose key exists
+        let okVals := vals.filter (fun v => (oldKey g v).toOption.isSome)
+        let key : Item → List Leaf := fun v => ((oldKey g v).toOption).getD []
+        let all := (oldFillAll g [] vals)
+        Json.mkObj [("groups", ofList (fun kv => ofList (fun v => dataJson v.data) kv.2) gs),
+                    ("keys", ofList (fun kv => ofList leafJson kv.1) gs), ("errors", Json.arr errs.toArray),
+                    ("specEqModel", Json.bool (decide (groupsOfG key okVals = gs))),
+                    ("all", match all with
+                      | .ok gs' => Json.mkObj [("ok", Json.bool (decide (gs' = gs)))]
+                      | .error e => Json.mkObj [("e", Json.str e)])]
+      | _, _ => err "bad oldgroupby args"
+    | _ => err "names missing"
   | some names =>
     match str? (getD j "op") with
     | some "select" =>
@@ -171,28 +278,111 @@ def handle (j : Json) : Json :=
         -- it is a callable) or `Filter(spec)`
         let o := if top == "filter" then filterInit spec else (inner roe spec).map (.selector · roe)
         match o with
+        | none => Json.mkObj [("init", "LenaTypeError"), ("hasBad", Json.bool spec.hasBad)]
+        | some o =>
+          let specRun := ((beforeError names o vals).filter (fun v => call names o v = .ok true), firstError names o vals)
+          Json.mkObj ([("r", ofList (fun v => resJson (call names o v)) vals)] ++ runOutJson names (filterRun names o vals)
+            ++ [("fill", ofList (fun v => resJson (filterFillInto names o v)) vals),
+                ("specRun", Json.mkObj (runOutJson names specRun))] ++ semFields names spec roe top vals)
+      | _, _, _ => err "bad select args"
+    | some "filterseq" =>
+      match specOf (getD j "a"), specOf (getD j "b"), (arr? (getD j "values")).bind (·.toList.mapM (itemOf names)) with
+      | some sa, some sb, some vals =>
+        match filterInit sa, filterInit sb with
+        | some a, some b =>
+          let stages := ((filterRun names b (filterRun names a vals).1).1,
+            ((filterRun names b (filterRun names a vals).1).2).orElse (fun _ => (filterRun names a vals).2))
+          Json.mkObj (runOutJson names (filterSeqRun names a b vals) ++
+            [("and", Json.mkObj (runOutJson names (filterRun names (.andO [a, b] true) vals))),
+             ("stages", Json.mkObj (runOutJson names stages))])
+        | _, _ => Json.mkObj [("init", "LenaTypeError")]
+      | _, _, _ => err "bad filterseq args"
+    | some "runif" =>
+      match specOf (getD j "spec"), (str? (getD j "seq")).bind (seqTable names.length),
+        (arr? (getD j "values")).bind (·.toList.mapM (itemOf names)) with
+      | some spec, some seq, some vals =>
+        match runIfInit spec with
         | none => Json.mkObj [("init", "LenaTypeError")]
         | some o =>
-          let (ys, e) := filterRun names o vals
-          Json.mkObj [("r", ofList (fun v => resJson (call names o v)) vals),
-                      ("kept", ofList (itemJson names) ys), ("stop", ofOpt Json.str e)]
-      | _, _, _ => err "bad select args"
+          let specRun := ((beforeError names o vals).flatMap (fun v => if call names o v = .ok true then seq v else [v]),
+            firstError names o vals)
+          Json.mkObj (runOutJson names (runIfRun names o seq vals) ++ [("specRun", Json.mkObj (runOutJson names specRun))])
+      | _, _, _ => err "bad runif args"
+    | some "contains" =>
+      match slots? names (getD j "ctx"), str? (getD j "s") with
+      | some d, some s =>
+        let spec : Option Bool := if s = "" then none else
+          match (splitDots s).reverse with
+          | last :: initRev => some (containsLast names last (valAt names (.dict d) initRev.reverse))
+          | [] => none
+        Json.mkObj [("r", Json.bool (contains names d s)), ("spec", ofOpt Json.bool spec)]
+      | _, _ => err "bad contains args"
     | some "groupby" =>
-      match sot? (getD j "group_by"), sot? (getD j "merge"), arr? (getD j "contexts") with
+      match gbArg? (getD j "group_by"), gbArg? (getD j "merge"), arr? (getD j "contexts") with
       | some g, some m, some cs =>
-        match groupByInit names g m with
-        | .valueError => Json.mkObj [("init", "LenaValueError")]
-        | .fuel => err "model out of fuel"
-        | .ok t =>
+        -- specification side of the construction: parsed key paths, improper nesting, overlaps
+        let specInit : List (String × Json) := match g, m with
+          | .arg g', .arg m' =>
+            let inc := (gbArgs g' m').1
+            let exc := (gbArgs g' m').2
+            match splitKeys names inc, splitKeys names exc with
+            | some I, some E =>
+              if inc.contains "" == exc.contains "" then [("parse", Json.str "root")]
+              else [("parse", Json.str "ok"), ("rejects", Json.bool (rejectsB I E (inc.contains ""))),
+                    ("disjoint", Json.bool (disjointB I E))]
+            | _, _ => [("parse", Json.str "subkey")]
+          | _, _ => [("parse", Json.str "type")]
+        match groupByInitAny names g m with
+        | .typeError => Json.mkObj ([("init", Json.str "LenaTypeError")] ++ specInit)
+        | .made .valueError => Json.mkObj ([("init", Json.str "LenaValueError")] ++ specInit)
+        | .made .fuel => err "model out of fuel"
+        | .made (.ok t) =>
           let items : Option (List Item) := (cs.toList.zipIdx).mapM (fun (c, i) =>
             if c.isNull then some { data := .int i, ctx := none }
             else (slots? names c).map (fun l => { data := .int i, ctx := some l }))
           match items with
           | none => err "bad contexts"
           | some items =>
-            let gs := items.foldl (gbFill names.length t) []
-            Json.mkObj [("groups", ofList (ofList idxOfItem) (gbCompute gs)),
-                        ("keys", ofList (fun g => valToJson names (.dict g.1)) gs)]
+            let w := names.length
+            let viaUpdate := (str? (getD j "via")) == some "update"
+            -- `fill` (or `update`) value by value; an exception leaves the groups unchanged
+            let (gs, errs) := items.foldl (fun (acc : Groups × List Json) (v : Item) =>
+              match gbFillR w t acc.1 v with
+              | .ok _ => ((if viaUpdate then gbUpdate w t acc.1 v else gbFill w t acc.1 v), acc.2)
+              | .error e => (acc.1, acc.2 ++ [Json.mkObj [("at", idxOfItem v), ("e", Json.str e)]])) ([], [])
+            let after := if (str? (getD j "end")) == some "clear" then gbClear gs else gbReset gs
+            -- specification side
+            let spec : List (String × Json) := match g, m with
+              | .arg g', .arg m' =>
+                let inc := (gbArgs g' m').1
+                match splitKeys names inc, splitKeys names (gbArgs g' m').2 with
+                | some I, some E =>
+                  let d := inc.contains ""
+                  let ctxs := items.map (fun v => v.context w)
+                  let keyC := fun (c : Slots) => keepL (selC I E d) 0 c
+                  let okItems := items.filter (fun v => !hasObjL (groupKey w t v))
+                  let head := ctxs.take 10
+                  let pairs := head.flatMap (fun a => head.map (fun b => (a, b)))
+                  [("keyC_eq_model", Json.bool (ctxs.all (fun c => decide (keyC c = getL t 0 c)))),
+                   ("keyFlip_eq_model", Json.bool (ctxs.all (fun c => decide (keepL (flipWalk I E d) 0 c = getL t 0 c)))),
+                   ("keyP_eq_model", Json.bool (ctxs.all (fun c => decide (keepL (polarity I E d) 0 c = getL t 0 c)))),
+                   ("keySel_eq_model", Json.bool (ctxs.all (fun c => decide (keepL (sel I E d) 0 c = getL t 0 c)))),
+                   ("groupsOf_eq_model", Json.bool (decide (groupsOf (groupKey w t) okItems = gs))),
+                   ("wf", Json.bool (items.all (fun v => wfV w (.dict (v.context w))))),
+                   ("agreeC_iff_key", Json.bool (pairs.all (fun ab =>
+                      agreeOnB (selC I E d) (.dict ab.1) (.dict ab.2) == decide (getL t 0 ab.1 = getL t 0 ab.2)))),
+                   ("agreeP_iff_key", Json.bool (pairs.all (fun ab =>
+                      agreeOnB (polarity I E d) (.dict ab.1) (.dict ab.2) == decide (getL t 0 ab.1 = getL t 0 ab.2)))),
+                   ("nodes", ofList (fun c => ofList (fun p => Json.arr #[pathJson names p, seenJson (seen (.dict c) p),
+                        Json.bool (selC I E d p), Json.bool (flipWalk I E d p), Json.bool (polarity I E d p), Json.bool (sel I E d p)])
+                      ((allPathsV (.dict c)).filter (· ≠ []))) (ctxs.take 3)),
+                   ("hasObjSel", ofList (fun v => Json.bool (hasObjL (groupKey w t v))) (items.take 10))]
+                | _, _ => []
+              | _, _ => []
+            Json.mkObj ([("groups", ofList (ofList idxOfItem) (gbCompute gs)),
+                        ("keys", ofList (fun g => valToJson names (.dict g.1)) gs),
+                        ("errors", Json.arr errs.toArray), ("after", ofList (ofList idxOfItem) (gbCompute after))]
+                        ++ specInit ++ spec)
       | _, _, _ => err "bad groupby args"
     | _ => err "unknown op"
 
